@@ -9,8 +9,11 @@ import (
 	"github.com/creack/pty"
 
 	"hop.computer/hop/authgrants"
-	"hop.computer/hop/pkg/thunks"
+	"hop.computer/hop/certs"
+	"hop.computer/hop/common"
 	"hop.computer/hop/config"
+	"hop.computer/hop/keys"
+	"hop.computer/hop/pkg/thunks"
 	"hop.computer/hop/transport"
 	"hop.computer/hop/tubes"
 )
@@ -50,7 +53,7 @@ func c07CheckCmd(maxGrants int) {
 	now := int64(verifU32("now"))
 	c07Now = time.Unix(now, 0)
 	thunks.TimeNow = c07TimeNow
-	sess := &hopSession{usingAuthGrant: true}
+	sess := &hopSession{}
 	n := verifPick("grants", 0, 1, 2, 3)
 	verifAssume(n <= maxGrants)
 	type g struct {
@@ -114,28 +117,72 @@ func c07CheckCmd(maxGrants int) {
 // ---- tube dispatch and the exec decision for grant sessions ----
 
 var c07d struct {
-	accepts   int
-	tubeType  byte
-	failures  int
-	lookups   int
-	cmd       string
-	shell     bool
-	closed    int
+	accepts  int
+	tubeType byte
+	failures int
+	lookups  int
+	cmd      string
+	shell    bool
+	closed   int
+}
+
+// Sessions are ADMITTED by the real checkAuthorization (stubs decide what the
+// authorized_keys file and the grant map answer), so that the harnesses do not
+// depend on how the session remembers that it came in through grants.
+var c07a struct {
+	on        bool // the next Accept is the user-authentication tube
+	viaGrants bool
+	grants    []authgrants.Authgrant
+	first     *tubes.Reliable
+}
+
+func c07GetInitMsg(r *tubes.Reliable) string                { return "alice" }
+func c07FetchLeaf(h *transport.Handle) *certs.Certificate   { return &certs.Certificate{} }
+func c07TubeWrite(r *tubes.Reliable, b []byte) (int, error) { return len(b), nil }
+func c07AuthorizeKey(s *HopServer, u string, k keys.DHPublicKey) error {
+	if c07a.viaGrants {
+		return errors.New("key not listed")
+	}
+	return nil
+}
+func c07AuthorizeKeyAuthGrant(s *HopServer, u string, k keys.DHPublicKey) ([]authgrants.Authgrant, error) {
+	return c07a.grants, nil
+}
+
+func c07NewSession(viaGrants bool, grants []authgrants.Authgrant) *hopSession {
+	c07a.on, c07a.viaGrants, c07a.grants, c07a.first = true, viaGrants, grants, nil
+	return &hopSession{server: &HopServer{config: &config.ServerConfig{EnableAuthgrants: true}}, transportConn: &transport.Handle{}, tubeMuxer: &tubes.Muxer{}}
+}
+
+func c07Admit(viaGrants bool, grants []authgrants.Authgrant) *hopSession {
+	sess := c07NewSession(viaGrants, grants)
+	verifAssume(sess.checkAuthorization())
+	return sess
 }
 
 func c07Accept(m *tubes.Muxer) (tubes.Tube, error) {
+	if c07a.on {
+		c07a.on = false
+		c07a.first = &tubes.Reliable{}
+		return c07a.first, nil
+	}
 	c07d.accepts++
 	if c07d.accepts > 2 {
 		return nil, errors.New("muxer stopped")
 	}
 	return &tubes.Reliable{}, nil
 }
-func c07TubeType(r *tubes.Reliable) tubes.TubeType { return tubes.TubeType(c07d.tubeType) }
-func c07TubeID(r *tubes.Reliable) byte              { return 0 }
-func c07TubeReliable(r *tubes.Reliable) bool        { return true }
-func c07TubeClose(r *tubes.Reliable) error          { return nil }
-func c07CheckAuthorization(sess *hopSession) bool   { return true }
-func c07SessClose(sess *hopSession) error           { c07d.closed++; return nil }
+func c07TubeType(r *tubes.Reliable) tubes.TubeType {
+	if c07a.first != nil && r == c07a.first {
+		return common.UserAuthTube
+	}
+	return tubes.TubeType(c07d.tubeType)
+}
+func c07TubeID(r *tubes.Reliable) byte            { return 0 }
+func c07TubeReliable(r *tubes.Reliable) bool      { return true }
+func c07TubeClose(r *tubes.Reliable) error        { return nil }
+func c07CheckAuthorization(sess *hopSession) bool { return true }
+func c07SessClose(sess *hopSession) error         { c07d.closed++; return nil }
 func c07GetCmd(c net.Conn) (string, string, bool, *pty.Winsize, error) {
 	return c07d.cmd, "xterm", c07d.shell, nil, nil
 }
@@ -156,17 +203,23 @@ func c07LookupUser(username string) (*etcpwdparse.EtcPasswdEntry, error) {
 //verif:stub (*hop.computer/hop/tubes.Reliable).GetID = c07TubeID
 //verif:stub (*hop.computer/hop/tubes.Reliable).IsReliable = c07TubeReliable
 //verif:stub (*hop.computer/hop/tubes.Reliable).Close = c07TubeClose
-//verif:stub (*hop.computer/hop/hopserver.hopSession).checkAuthorization = c07CheckAuthorization
+//verif:stub (*hop.computer/hop/tubes.Reliable).Write = c07TubeWrite
+//verif:stub hop.computer/hop/userauth.GetInitMsg = c07GetInitMsg
+//verif:stub (*hop.computer/hop/transport.Handle).FetchClientLeaf = c07FetchLeaf
+//verif:stub (*hop.computer/hop/hopserver.HopServer).AuthorizeKey = c07AuthorizeKey
+//verif:stub (*hop.computer/hop/hopserver.HopServer).AuthorizeKeyAuthGrant = c07AuthorizeKeyAuthGrant
 //verif:stub (*hop.computer/hop/hopserver.hopSession).close = c07SessClose
 //verif:bounds one accepted reliable tube of symbolic type (all 256 values) on a session admitted through grants that holds 0..1 command/shell grants; go statements are recorded, not run
 //verif:cover exec;pf;agc;other
 func VH_C07_grant_session_dispatches_only_granted_actions() {
-	sess := &hopSession{usingAuthGrant: true, server: &HopServer{}}
+	var grants []authgrants.Authgrant
 	if verifBool("has-command-grant") {
 		ag := authgrants.Authgrant{GrantType: authgrants.Command, ExpTime: time.Unix(2000000000, 0)}
 		ag.AssociatedData.CommandGrantData.Cmd = "ls"
-		sess.authorizedActions = append(sess.authorizedActions, ag)
+		grants = append(grants, ag)
 	}
+	sess := c07NewSession(true, grants) // start() runs the real checkAuthorization first
+	c07d.accepts = 0
 	c07d.tubeType = verifU8("tube-type")
 	sess.start()
 	pf := verifGoCount("startPF") + verifGoCount("handlePF")
@@ -189,24 +242,35 @@ func VH_C07_grant_session_dispatches_only_granted_actions() {
 //
 //verif:prop C07
 //verif:replay none
+//verif:stub (*hop.computer/hop/tubes.Muxer).Accept = c07Accept
+//verif:stub (*hop.computer/hop/tubes.Reliable).Type = c07TubeType
+//verif:stub (*hop.computer/hop/tubes.Reliable).Close = c07TubeClose
+//verif:stub (*hop.computer/hop/tubes.Reliable).Write = c07TubeWrite
+//verif:stub hop.computer/hop/userauth.GetInitMsg = c07GetInitMsg
+//verif:stub (*hop.computer/hop/transport.Handle).FetchClientLeaf = c07FetchLeaf
+//verif:stub (*hop.computer/hop/hopserver.HopServer).AuthorizeKey = c07AuthorizeKey
+//verif:stub (*hop.computer/hop/hopserver.HopServer).AuthorizeKeyAuthGrant = c07AuthorizeKeyAuthGrant
 //verif:stub hop.computer/hop/codex.GetCmd = c07GetCmd
 //verif:stub hop.computer/hop/codex.SendFailure = c07SendFailure
-//verif:bounds grant session with 0..1 command grants (text of 0..2 symbolic bytes, live or expired), request: shell or command of 0..2 symbolic bytes; everything after the authorization decision (user lookup, exec) is cut at the user lookup
+//verif:bounds grant session (admitted by the real checkAuthorization) with 0..1 command grants (text of 0..2 symbolic bytes, live or expired), request: shell or command of 0..2 symbolic bytes; everything after the authorization decision (user lookup, exec) is cut at the user lookup
 //verif:cover went-ahead;refused
 func VH_C07_exec_for_grant_session_is_gated_by_checkcmd() {
 	now := int64(verifU32("now"))
 	c07Now = time.Unix(now, 0)
 	thunks.TimeNow = c07TimeNow
 	thunks.LookupUser = c07LookupUser
-	sess := &hopSession{usingAuthGrant: true, server: &HopServer{}}
 	has := verifBool("has-grant")
 	gcmd := c07Cmd("grant-cmd")
 	start, exp := int64(verifU32("start")), int64(verifU32("exp"))
+	var grants []authgrants.Authgrant
 	if has {
 		ag := authgrants.Authgrant{GrantType: authgrants.Command, StartTime: time.Unix(start, 0), ExpTime: time.Unix(exp, 0)}
 		ag.AssociatedData.CommandGrantData.Cmd = gcmd
-		sess.authorizedActions = append(sess.authorizedActions, ag)
+		grants = append(grants, ag)
 	}
+	// admitted through grants by the real login code - with one grant, or with
+	// none left (all consumed)
+	sess := c07Admit(true, grants)
 	c07d.cmd, c07d.shell = c07Cmd("request-cmd"), verifBool("shell")
 	sess.startCodex(&tubes.Reliable{}, &tubes.Reliable{})
 	allowed := verifAnd(verifAnd(has, !c07d.shell), verifAnd(verifAnd(start <= now, now < exp), verifStrEq(gcmd, c07d.cmd)))
@@ -226,7 +290,7 @@ func VH_C07_exec_for_grant_session_is_gated_by_checkcmd() {
 // session.
 
 func c07TubesServer(c transport.MsgConn, cfg *tubes.Config) *tubes.Muxer { return &tubes.Muxer{} }
-func c07SessStart(sess *hopSession)                                    {}
+func c07SessStart(sess *hopSession)                                      {}
 
 //verif:prop C07
 //verif:replay none
@@ -246,4 +310,36 @@ func VH_C07_no_user_session_is_numbered_like_the_servers_own_grants() {
 	_, clash := s.sessions[NoSession]
 	verifAssert(!clash, "C07: no user session is ever registered under NoSession, the principal id of grants issued by the server itself")
 	verifCover("numbered")
+}
+
+// C11: the server's session tube loop survives every tube type in every
+// session state (admitted by key or through grants, grants left or all
+// consumed).
+//
+//verif:prop C11
+//verif:replay none
+//verif:stub (*hop.computer/hop/tubes.Muxer).Accept = c07Accept
+//verif:stub (*hop.computer/hop/tubes.Reliable).Type = c07TubeType
+//verif:stub (*hop.computer/hop/tubes.Reliable).GetID = c07TubeID
+//verif:stub (*hop.computer/hop/tubes.Reliable).IsReliable = c07TubeReliable
+//verif:stub (*hop.computer/hop/tubes.Reliable).Close = c07TubeClose
+//verif:stub (*hop.computer/hop/tubes.Reliable).Write = c07TubeWrite
+//verif:stub hop.computer/hop/userauth.GetInitMsg = c07GetInitMsg
+//verif:stub (*hop.computer/hop/transport.Handle).FetchClientLeaf = c07FetchLeaf
+//verif:stub (*hop.computer/hop/hopserver.HopServer).AuthorizeKey = c07AuthorizeKey
+//verif:stub (*hop.computer/hop/hopserver.HopServer).AuthorizeKeyAuthGrant = c07AuthorizeKeyAuthGrant
+//verif:stub (*hop.computer/hop/hopserver.hopSession).close = c07SessClose
+//verif:bounds one accepted reliable tube of symbolic type (all 256 values) on a session admitted by key or through grants, holding 0..1 grants (none left = all consumed); go statements are recorded, not run
+//verif:cover dispatched
+func VH_C11_session_tube_loop_survives_any_tube_in_any_session_state() {
+	var grants []authgrants.Authgrant
+	via := verifBool("admitted-through-grants")
+	if via && verifBool("has-a-grant-left") {
+		grants = append(grants, authgrants.Authgrant{GrantType: authgrants.GrantType(verifU8("grant-type")), ExpTime: time.Unix(2000000000, 0)})
+	}
+	sess := c07NewSession(via, grants)
+	c07d.accepts = 0
+	c07d.tubeType = verifU8("tube-type")
+	sess.start()
+	verifCover("dispatched")
 }
